@@ -291,6 +291,10 @@ def exc_kind(ex: Exception, rm: RefModel) -> str:
         for d, (s, e) in rm.derivs.items():
             sexp.ops(e, ops)
         return "unprintable-Derivative/" + ("floor-or-mod" if ("fn:floor" in ops or "mod" in ops) else "other")
+    import re as _re
+    m = _re.search(r"Unsupported by <class '[^']+'>:\s*(?:<class ')?([\w.]+)", msg)
+    if m:
+        return "unprintable/" + m.group(1).split(".")[-1]
     return type(ex).__name__
 
 
